@@ -240,8 +240,23 @@ def flag_word_rule(ctx):
                 amt = w.args[1]
                 parts_ = T._lin_parts(amt)
                 ok_amt = parts_ is not None and parts_[0] % 16 == 0 and \
-                    all(k % 16 == 0 for k in parts_[1].values()) and \
                     T.nonneg(amt, o.state.kn)
+                for tm, k in (parts_[1].items() if parts_ else ()):
+                    if k % 16 == 0:
+                        continue
+                    # a running shift variable: starts at a multiple of 16
+                    # and moves by a multiple of 16 per iteration
+                    name = next((n_ for n_, v_ in lp['start_env'].items()
+                                 if v_ is tm), None)
+                    pre_v = lp.get('pre', {}).get(name)
+                    step_ok = name is not None and \
+                        isinstance(pre_v, int) and pre_v % 16 == 0
+                    for oc in lp['conts']:
+                        d_ = T.sub(oc.state.env.get(name), tm) \
+                            if name else None
+                        if not (isinstance(d_, int) and d_ % 16 == 0):
+                            step_ok = False
+                    ok_amt = ok_amt and step_ok
                 desc.append('word << %s' % T.show(amt)[:40])
                 w_ok = w_ok and ok_amt
             else:
